@@ -19,6 +19,26 @@ impl<T> OnceCell<T> {
     pub fn get_mut(&mut self) -> Option<&mut T> {
         self.v.get_mut().as_mut()
     }
+    /// infallible variant: the cell is complete as soon as the closure returns
+    pub fn get_or_init(&self, f: impl FnOnce() -> T) -> &T {
+        match self.get_or_try_init(|| Ok::<T, std::convert::Infallible>(f())) {
+            Ok(v) => v,
+            Err(never) => match never {},
+        }
+    }
+    pub fn set(&self, t: T) -> Result<(), T> {
+        if self.get().is_some() {
+            return Err(t);
+        }
+        unsafe { *self.v.get() = Some(t) };
+        Ok(())
+    }
+    pub fn take(&mut self) -> Option<T> {
+        self.v.get_mut().take()
+    }
+    pub fn into_inner(self) -> Option<T> {
+        self.v.into_inner()
+    }
     pub fn get_or_try_init<E>(&self, f: impl FnOnce() -> Result<T, E>) -> Result<&T, E> {
         if let Some(v) = self.get() {
             return Ok(v);
